@@ -39,8 +39,12 @@ func TestVerifMerge(t *testing.T) {
 	seed, n := vs.Params(20000)
 	out := vs.OpenOut()
 	defer out.Close()
-	g := &vs.JGen{R: vs.NewRand(seed), MaxDepth: 3}
+	only := vs.Only()
 	for i := 0; i < n; i++ {
+		if only >= 0 && i != only {
+			continue
+		}
+		g := &vs.JGen{R: vs.CaseRand(seed, i), MaxDepth: 3}
 		o, l, d := g.Triple()
 		oc, lc, dc := vs.DeepCopy(o), vs.DeepCopy(l), vs.DeepCopy(d)
 		var lIn map[string]interface{}
